@@ -24,11 +24,17 @@ def parity_sub(level):
 class Ref:
     """reference facts of a scenario: post-scan content, enabled stripes, stripes written, per-file stripes read"""
 
-    def __init__(self, scn):
+    def __init__(self, scn, oneshot=False):
         a = scn.build()
+        cb0 = a.content_bytes()
         r0 = post_scan(a)
         self.rc0 = r0.rc
         self.st1 = a.content()
+        if oneshot:
+            # the reference run scans and syncs in ONE go (past hashes kept: stripes whose data did not change are not written)
+            for cf_, b_ in zip(a.content_files, cb0):
+                if b_ is not None:
+                    open(cf_, 'wb').write(b_)
         self.enabled = enabled_stripes(a, self.st1)
         log = os.path.join(a.root, 'ref.log')
         r = a.run('sync', shim_env={'VSHIM_LOG': log})
@@ -53,9 +59,9 @@ class Ref:
 
 
 class Runner:
-    def __init__(self, chk, scn, model):
+    def __init__(self, chk, scn, model, oneshot=False):
         self.chk, self.scn, self.model = chk, scn, model
-        self.ref = Ref(scn)
+        self.ref = Ref(scn, oneshot=oneshot)
         self.stats = {'runs': 0, 'read_faults': 0, 'write_faults': 0, 'scrub_faults': 0, 'model_compared': 0, 'satisfied': 0,
                       'known': {KEY_SYNCED: 0, KEY_LAST: 0, KEY_MONO: 0}, 'not_injected': 0, 'lag_seen': {}}
         self.samples = []
@@ -69,8 +75,16 @@ class Runner:
         a = scn.build()
         rep = dict(case); rep.update(scn.describe())
         try:
+            cb0 = a.content_bytes()
             r0 = post_scan(a)
             st1 = a.content()
+            if case.get('oneshot'):
+                # ONE run scans and syncs: the blocks the scan creates keep their past hashes (no clear_past_hash), so stripes whose data
+                # did not change need no parity update.  The post-scan state is taken from a first killed run, then the content files are
+                # put back as they were; the model is asked to keep the past hashes (request syncwk)
+                for cf_, b_ in zip(a.content_files, cb0):
+                    if b_ is not None:
+                        open(cf_, 'wb').write(b_)
             br = None
             if self.model:
                 br = Bridge(a)
@@ -247,7 +261,7 @@ class Runner:
         if not bailed_real:
             real.update({'nerr': int(sm.get('error_file', 0)), 'nio': int(sm.get('error_io', 0)), 'nsil': int(sm.get('error_data', 0))})
         first = None
-        base = ['syncw', '0', '0', str(iol), str(now), str(a.bs), str(a.np), '-1', '0', str(st1['blockmax']), 'M', str(n), '1'] + \
+        base = ['syncwk' if case.get('oneshot') else 'syncw', '0', '0', str(iol), str(now), str(a.bs), str(a.np), '-1', '0', str(st1['blockmax']), 'M', str(n), '1'] + \
             br.ser_hashes() + br.ser_content(st1) + br.ser_parity() + fs_toks + ['Q', str(len(rq) // 3)] + rq
         for (lagc, stale) in lags:
             wq = []
@@ -701,6 +715,142 @@ class Runner:
         finally:
             drop(a)
 
+    def scrub_unsynced_case(self, case):
+        """scrub over stripes that are NOT all synced (scrub.c: block_is_unsynced: a parity that differs is an expected, generic error there):
+        an I/O error of the parity read must still be counted and mark the stripe bad, and a bad mark must survive a scrub that cannot
+        verify the stripe.  case = dict(cache, mode, file=(disk, sub), which='first'|'last', level, errno)
+          mode 'touch'    : full sync; the file gets a new time stamp (same bytes); scrub -p full, parity read of a stripe of the file fails
+          mode 'chg'      : full sync; the file is rewritten (other bytes), a sync is killed before its first parity write (CHG blocks on
+                            disk, parity still the old one); scrub -p full, parity read of a stripe of the file fails
+          mode 'badtouch' : sync with a failing parity WRITE at a stripe of the file (the stripe is marked bad, its parity is stale); the
+                            file gets a new time stamp; `scrub -p bad` without any fault: the bad mark has to stay, the exit status fail"""
+        scn, chk = self.scn, self.chk
+        if len(chk.violations) > 8:
+            return
+        a = scn.build()
+        rep = dict(case); rep.update(scn.describe())
+        mode, (d, sub), lev = case['mode'], case['file'], case['level']
+        try:
+            spec = None
+            if mode == 'badtouch':
+                post_scan(a)
+                st0 = a.content()
+                lst = [p for p in file_stripes(a, st0, d, sub) if p in self.ref.written.get(lev, [])]
+                if not lst:
+                    return
+                pos = lst[0] if case['which'] == 'first' else lst[-1]
+                jw = self.ref.written[lev].index(pos) + 1
+                r = a.run('sync', '--test-io-cache', str(case['cache']), shim_env={'VSHIM_FAIL': 'pwrite:%s:%d:%d' % (parity_sub(lev), jw, case['errno'])})
+                st1 = a.content()
+                i1 = st1['info'][pos] if pos < len(st1['info']) else None
+                if r.rc == 0 or not (i1 and i1['bad']):
+                    # judged by the write-fault family; here only a precondition
+                    self.stats['not_injected'] += 1
+                    return
+            else:
+                r = a.run('sync')
+                if r.rc != 0:
+                    chk.violation('scrub_setup', 'clean sync failed: %r' % r, rep, no_input=True)
+                    return
+                st1 = a.content()
+                lst = file_stripes(a, st1, d, sub)
+                if not lst:
+                    return
+                pos = lst[0] if case['which'] == 'first' else lst[-1]
+            pth = a.path(d, sub)
+            if mode == 'chg':
+                old = open(pth, 'rb').read()
+                a.write(d, sub, det_bytes('%s/%s/chg' % (d, sub), len(old)), mtime_ns=T0 + 555 * 10**9)
+                post_scan(a)
+                st1 = a.content()
+                if pos >= len(st1['info']) or not st1['info'][pos]:
+                    return
+            else:
+                os.utime(pth, ns=(T0 + 777 * 10**9, T0 + 777 * 10**9))
+                a.note_version(d, sub)
+            view1 = stripe_view(a, st1)
+            scrubbed = sorted(p for p, v in view1.items() if v['hasfile'] and v['info'])
+            if pos not in scrubbed:
+                return
+            perr1, _ = a.check_parity(st1)
+            log = os.path.join(a.root, 'fault.log')
+            if mode == 'badtouch':
+                r = a.run('scrub', '-p', 'bad', '--test-io-cache', str(case['cache']), shim_env={'VSHIM_LOG': log})
+            else:
+                spec = 'pread:%s:%d:%d' % (parity_sub(lev), scrubbed.index(pos) + 1, case['errno'])
+                r = a.run('scrub', '-p', 'full', '--test-io-cache', str(case['cache']), shim_env={'VSHIM_FAIL': spec, 'VSHIM_LOG': log})
+                if not (os.path.exists(log) and 'INJECTED-ERROR' in open(log, errors='replace').read()):
+                    self.stats['runs'] += 1
+                    self.stats['not_injected'] += 1
+                    return
+            self.stats['runs'] += 1
+            self.stats['scrub_faults'] += 1
+            st2 = a.content()
+            v = stripe_view(a, st2)[pos]
+            sm = r.summary()
+            i1 = st1['info'][pos]
+            rep.update({'rc': r.rc, 'summary': sm, 'stripe': pos, 'info_before': i1, 'info_after': v['info']})
+            what = {'touch': 'a file of the stripe has a new time stamp', 'chg': 'the stripe has CHG blocks (interrupted sync)',
+                    'badtouch': 'the stripe is marked bad after a failed parity write, then a file of it got a new time stamp'}[mode]
+            if mode == 'badtouch':
+                stale = [e for e in a.check_parity(st2)[0] if e.startswith('stripe %d ' % pos)]
+                if not (v['info'] and v['info']['bad']):
+                    chk.violation('scrub_unsynced_badcleared', 'scrub -p bad (rc %d): %s: the bad mark of stripe %d is CLEARED although its parity was not verified (parity stale: %s, io_cache %d)' % (
+                        r.rc, what, pos, bool(stale), case['cache']), rep)
+                elif r.rc == 0:
+                    chk.violation('scrub_unsynced_exit', 'scrub -p bad: %s: exit status 0 although stripe %d could not be verified' % (what, pos), rep)
+                else:
+                    self.stats['satisfied'] += 1
+            else:
+                ok = True
+                if r.rc == 0:
+                    ok = False
+                    chk.violation('scrub_unsynced_exit', 'scrub: EIO reading parity level %d at stripe %d (%s): exit status 0' % (lev, pos, what), rep)
+                if case['errno'] == EIO and sm.get('error_io') != '1':
+                    ok = False
+                    chk.violation('scrub_unsynced_count', 'scrub: one EIO injected on the parity read of stripe %d (%s) but summary:error_io is %s' % (pos, what, sm.get('error_io')), rep)
+                if case['errno'] == EIO and not (v['info'] and v['info']['bad']):
+                    ok = False
+                    chk.violation('scrub_unsynced_notbad', 'scrub: EIO reading parity level %d at stripe %d (%s): the stripe is not marked bad (io_cache %d)' % (lev, pos, what, case['cache']), rep)
+                if v['info'] and i1 and v['info']['time'] != i1['time']:
+                    ok = False
+                    chk.violation('scrub_refreshed', 'scrub: parity read error at stripe %d (%s) but its scrub time was refreshed' % (pos, what), rep)
+                if ok:
+                    self.stats['satisfied'] += 1
+            # ---- the scrub-stripe model on the same stripe
+            if self.model and case['errno'] == EIO:
+                order = {m['name']: m['pos'] for m in st1['maps']}
+                stripes1, _ = a.stripes(st1)
+                dt = []
+                for dp in range(a.nd):
+                    blk = stripes1.get(pos, {}).get(dp)
+                    if blk is None:
+                        dt += ['0', '0', '0', '0', '0', 'O1']
+                        continue
+                    isfile = blk[0] != 'DEL'
+                    ts = mode != 'chg' and isfile and order.get(d) == dp and blk[2]['sub'].decode('latin1') == sub
+                    dt += ['1', '1' if blk[0] != 'BLK' else '0', '1' if isfile else '0', '1' if ts else '0', '1' if (isfile and blk[0] in ('BLK', 'REP')) else '0', 'O1']
+                stale1 = {l for l in range(a.np) if any(e.startswith('stripe %d ' % pos) and ('level %d' % l in e or 'parity %d' % l in e) for e in perr1)}
+                if any(e.startswith('stripe %d ' % pos) for e in perr1) and not stale1:
+                    stale1 = set(range(a.np)) if mode == 'chg' else {lev}
+                pl = [('I' if (mode != 'badtouch' and l == lev) else ('P0' if l in stale1 else 'P1')) for l in range(a.np)]
+                req = ['scrub1', '100', '0', '7', str(i1['time']), str(int(i1['bad'])), str(int(i1['rehash'])), str(int(i1['justsynced'])),
+                       'D', str(a.nd)] + dt + ['L', str(a.np)] + pl
+                out = run_lines(self.model, [' '.join(req)], shards=1)[0].split()
+                if out[:1] != ['ok']:
+                    chk.violation('model_error', 'scrub model failed: %s' % ' '.join(out)[:200], {'request': ' '.join(req)}, no_input=True)
+                else:
+                    mtime, mbad, mbail, mnerr, mnio = int(out[1]), out[2] == '1', out[5] == '1', int(out[6]), int(out[8])
+                    real_t = (v['info']['time'], bool(v['info']['bad'])) if v['info'] else None
+                    cnt_ok = mode == 'chg' or (sm.get('error_io'), sm.get('error_file')) == (str(mnio), str(mnerr))
+                    if mbail or real_t != (mtime, mbad) or not cnt_ok or (mode == 'chg' and sm.get('error_io') != str(mnio)):
+                        chk.violation('drift_scrub', 'MODEL-DRIFT: scrub stripe model (time %d bad %s nio %d nerr %d bail %s) differs from the binary (%s, summary %s) on a not fully synced stripe (%s)' % (
+                            mtime, mbad, mnio, mnerr, mbail, v['info'], sm, mode), dict(rep, request=' '.join(req)), no_input=True)
+                    else:
+                        self.stats['model_compared'] += 1
+        finally:
+            drop(a)
+
 
 def sync_cases(ref, scn, caches, quick, rng):
     cases = []
@@ -851,6 +1001,16 @@ def main(tier, replay=None):
                     allf.append({'cache': cache, 'file': (d, sub), 'limit': 3})
             pmap(R.scrub_allfail_case, allf)
             pmap(R.scrub_combo_case, combo)
+            # scrub over stripes that are not fully synced x parity read EIO; a bad mark (failed parity write) followed by a touch and scrub -p bad
+            uns = []
+            for cache in ([caches[0], caches[-1]] if quick else caches):
+                for (d, sub) in (fl[:2] if quick else fl):
+                    for lev in range(scn.np):
+                        for which in ('first', 'last'):
+                            for mode in ('touch', 'chg', 'badtouch'):
+                                uns.append({'cache': cache, 'mode': mode, 'file': (d, sub), 'which': which, 'level': lev, 'errno': EIO})
+            pmap(R.scrub_unsynced_case, uns)
+            scc_uns = uns
         # ---- other fault families (coverage round): judged by the generic "no false protection" oracle
         if gi == 0 or not quick:
             mc = []
@@ -900,7 +1060,7 @@ def main(tier, replay=None):
         if gi == 0 or not quick:
             pmap(R.prehash_case, ph)
             sc = sc + ph
-            scc = scc + combo + allf
+            scc = scc + combo + allf + scc_uns
         if gi == 0:
             # replay of the Coq witnesses, one-shot (no preliminary interrupted sync), judged by the same oracle
             for wname, case in WITNESSES:
@@ -932,6 +1092,32 @@ def main(tier, replay=None):
                 chk.cov['silent_error_plus_fatal_parity_read (measured, not judged)'] = R2.stats.get('measured', [])[:4]
             except Exception as e:
                 chk.violation('setup', 'adds scenario for the on-the-fly repair cases cannot be prepared: %s' % e, {}, no_input=True)
+        if gi == 0:
+            # ---- write faults collected while the loop visits stripes that need NO parity update (io_write_next with skip set): one
+            # stripe really changes, every later one only has a file re-saved with the same bytes.  One-shot runs (scan + sync in the
+            # same process: the past hashes are still known); the writer error must be reported whatever the cache depth
+            try:
+                skc = []
+                for (snd, snp, snblk, scaches) in ([(2, 1, 8, [3, 8])] if quick else [(2, 1, 8, [1, 2, 3, 8, 128]), (3, 2, 12, [3, 8]), (2, 1, 140, [128])]):
+                    scn3 = Scn(binary, shim, 'touchskip', snd, snp, nblk=snblk)
+                    R3 = Runner(chk, scn3, model, oneshot=True)
+                    nwr = {lev: len(w) for lev, w in R3.ref.written.items()}
+                    skipped = [p for p in R3.ref.enabled if p not in R3.ref.written.get(0, [])]
+                    if len(skipped) < snblk or any(n != 1 for n in nwr.values()):
+                        chk.violation('setup', 'touchskip scenario: expected ONE written stripe and %d visited without parity update, got writes %s, enabled %s' % (snblk, R3.ref.written, R3.ref.enabled), {}, no_input=True)
+                        continue
+                    sk = [{'cache': c, 'oneshot': True, 'faults': [('wr', lev, 1, eno)]} for c in scaches for lev in range(snp) for eno in (EIO, ENOSPC, SHORT)]
+                    if snblk < 100:
+                        sk += [{'cache': c, 'oneshot': True, 'limit': 1, 'faults': [('wr', 0, 1, EIO)]} for c in scaches[:2]]
+                    pmap(R3.sync_case, sk)
+                    skc += sk
+                    for k in total:
+                        total[k] += R3.stats[k]
+                    for k, v in R3.stats['lag_seen'].items():
+                        lag_seen[k] = lag_seen.get(k, 0) + v
+                chk.cov['write_fault_then_no_update_stripes'] = {'runs': len(skc), 'rule': 'touchskip: parity write 1 of each level fails (EIO, ENOSPC, short count), the remaining visited stripes need no parity update; io_cache %s' % ('3, 8' if quick else '1, 2, 3, 8, 128')}
+            except Exception as e:
+                chk.violation('setup', 'touchskip scenario cannot be prepared: %s' % e, {}, no_input=True)
         for k in total:
             total[k] += R.stats[k]
         for k in known:
